@@ -238,6 +238,28 @@ Proof.
 Qed.
 Print Assumptions C11_hint_kind_prune_sound.
 
+(* ------------------------------------------------------------------ partitions going offline between write and read *)
+(* The alive shard list (GetAliveShards) is evaluated when a row is written (list aw) and again when a query runs (list ar).
+   1. Hash sharding consults only shards that are alive when the query runs: if the owner of a row is offline then, it is
+      not consulted - the shard at position (hash mod |ar|) of the read-time list is. *)
+Theorem consulted_are_alive : forall (hash : str -> N) v c g cond s,
+  c_typ c = Hash -> wf_group c g -> In s (target_group hash v c g cond) -> In s (all_alive g).
+Proof. exact consulted_are_alive_proof. Qed.
+(* 2. Pruning finds every matching row as long as the index list hashed over is the same at write and at read time (always
+      under range sharding; under hash sharding e.g. a measurement with its own shard list, or no change of partition
+      status). When the list changed, today's code can skip an ONLINE shard that holds a match:
+      Refuted.C11_alive_set_change_refuted. *)
+Theorem prune_sound_alive_change : forall (hash : str -> N) c cond p g aw ar s,
+  wf_group c (set_alive g ar) -> wf_point p ->
+  (c_typ c = Range \/ eff_idx c (set_alive g aw) = eff_idx c (set_alive g ar)) ->
+  route_in hash c (set_alive g aw) p = Some s -> eval_cond c cond p = true ->
+  In s (target_group hash repaired c (set_alive g ar) cond).
+Proof.
+  intros hash c cond p g aw ar s.
+  exact (prune_sound_alive_change_proof hash repaired c cond p g aw ar s eq_refl eq_refl (or_introl eq_refl)).
+Qed.
+Print Assumptions prune_sound_alive_change.
+
 (* ------------------------------------------------------------------ non-vacuity: the hypotheses are satisfiable *)
 Definition B (l : list N) : str := l.
 Definition s_host : str := [104; 111; 115; 116]%N.
